@@ -50,14 +50,14 @@ type c09Call struct {
 }
 
 type c09Host struct {
-	name    string
-	script  []string // outcome of the k-th call ("ok" when exhausted)
-	mu      *sync.Mutex
-	calls   *[]c09Call
-	seq     *atomic.Int64
-	n       int
-	docs    []byte
-	metas   []byte
+	name   string
+	script []string // outcome of the k-th call ("ok" when exhausted)
+	mu     *sync.Mutex
+	calls  *[]c09Call
+	seq    *atomic.Int64
+	n      int
+	docs   []byte
+	metas  []byte
 	pb.StoreApiClient
 }
 
